@@ -122,7 +122,15 @@ func Patch(visitor ast.Visitor) Option {
 }
 
 // Compile parses and compiles given input expression to bytecode program.
-func Compile(input string, ops ...Option) (*vm.Program, error) {
+func Compile(input string, ops ...Option) (compiled *vm.Program, failure error) {
+	// Options, the type checker, operator patching and user visitors run
+	// outside compiler.Compile's own recover: report their panics as errors too.
+	defer func() {
+		if r := recover(); r != nil {
+			compiled, failure = nil, fmt.Errorf("%v", r)
+		}
+	}()
+
 	config := &conf.Config{
 		Operators:    make(map[string][]string),
 		ConstExprFns: make(map[string]reflect.Value),
